@@ -474,6 +474,8 @@ static var Thread_Val_Type(var self) {
 
 static void Thread_Mark(var self, var gc, void(*f)(var,void*)) {
   struct Thread* t = self;
+  /* The object called to run the Thread is held by it */
+  if (t->func isnt NULL) { f(gc, t->func); }
   mark(t->tls, gc, f);
 }
 
